@@ -207,9 +207,16 @@ fn c11_lengths(tier: Tier) -> Vec<usize> {
             s.insert((128 * k as i64 + d) as usize);
         }
     }
+    // every residue of the leftover-column handling of the transpose (len % 128 in 80..104) and one
+    // batch whose messages exceed 1 MiB (the engine's largest: 2^16 + 2^10 OTs is still common)
+    s.extend(80..=104);
+    s.insert(66_600);
     if tier == Tier::Thorough {
         s.insert(4095);
         s.insert(4096);
+        s.extend(200..=360);
+        s.insert(131_200);
+        s.insert(300_001);
     }
     s.into_iter().collect()
 }
@@ -222,7 +229,7 @@ impl Check for C11 {
         "exploration"
     }
     fn rule(&self) -> String {
-        "each evaluation is one simulated two-node execution of the real KOS correlated-OT sender and receiver (base OTs, ALSZ extension, consistency check) over the simulated link: lengths 1..40, 8k+-1 and 128k+-1 (k<=6 quick, <=32 thorough), random lengths up to 4096, choice vectors all-0 / all-1 / random, correlation vectors constant or per-index random, three session orders (sender-then-receiver mirrored as in fabitn, the reverse, single session) with session randomness cloned from one seed on both sides, random capacity and schedule; oracle: receiver[i] == sender_zero[i] xor (choice[i] and correlation[i]), both vectors of the requested length, shared generators in step afterwards; distinct = (length, order, modes) tuples".into()
+        "each evaluation is one simulated two-node execution of the real KOS correlated-OT sender and receiver (base OTs, ALSZ extension, consistency check) over the simulated link: lengths 1..40, 80..104 (every residue of the transpose's leftover-column handling), 8k+-1 and 128k+-1 (k<=6 quick, <=32 thorough), one batch of 66600 OTs (messages above 1 MiB; thorough: also 131200 and 300001, and 200..360), random lengths up to 4096, choice vectors all-0 / all-1 / random, correlation vectors constant or per-index random, three session orders (sender-then-receiver mirrored as in fabitn, the reverse, single session) with session randomness cloned from one seed on both sides, random capacity and schedule; oracle: receiver[i] == sender_zero[i] xor (choice[i] and correlation[i]), both vectors of the requested length, shared generators in step afterwards; distinct = (length, order, modes) tuples".into()
     }
     fn assumptions(&self) -> Vec<String> {
         vec!["reached through the existing __bench re-exports; no hook".into()]
@@ -689,7 +696,7 @@ impl Check for C10 {
         "exploration"
     }
     fn rule(&self) -> String {
-        "each evaluation is one simulated execution of the real preprocessing sub-protocols by n in 2..5 parties (coin tossing, fashare of length l in {1,2,7,8,9,127,128,129,1000,1001,5000}, then beaver_aand for l_and in {1,2,3,100,3099,3100} on arbitrary left/right shares incl. x AND x; bucket size 5 and 4; 280000 (bucket 3) once in thorough) or of the trusted-dealer provider (fpre as extra node), under random capacity and schedule; oracle recomputed from plain integers: for all i != j and every index mac_i[j] == key_j[i] ^ (bit_i & delta_j); XOR of AND shares == AND of XORs of the inputs with valid MACs; multi-party and pairwise shared generators in the same state at all parties; the keys a party holds for its different peers are pairwise different; trusted dealer against a party (every index, n in 2..5) that submits a left share with a flipped bit and either the MACs of the original bit or all MACs set to zero: no honest party may be handed AND shares; distinct = (n, l, l_and, provider) tuples x seeds".into()
+        "each evaluation is one simulated execution of the real preprocessing sub-protocols by n in 2..5 parties (coin tossing, fashare of length l in {1,2,7,8,9,57,60,64,127,128,129,185,1000,1001,5000}, then beaver_aand for l_and in {1,2,3,100,3099,3100} on arbitrary left/right shares incl. x AND x; bucket size 5 and 4; 280000 (bucket 3) once in thorough) or of the trusted-dealer provider (fpre as extra node), under random capacity and schedule; oracle recomputed from plain integers: for all i != j and every index mac_i[j] == key_j[i] ^ (bit_i & delta_j); XOR of AND shares == AND of XORs of the inputs with valid MACs; multi-party and pairwise shared generators in the same state at all parties; the keys a party holds for its different peers are pairwise different; trusted dealer against a party (every index, n in 2..5) that submits a left share with a flipped bit and either the MACs of the original bit or all MACs set to zero: no honest party may be handed AND shares; distinct = (n, l, l_and, provider) tuples x seeds".into()
     }
     fn assumptions(&self) -> Vec<String> {
         vec!["all parties honest; the relations are checked on the outputs handed to the online phase".into()]
@@ -700,7 +707,7 @@ impl Check for C10 {
     fn cases(&self, tier: Tier, seed: u64) -> Vec<Value> {
         let mut v = vec![];
         let mut k = 0u64;
-        let ls: &[usize] = &[1, 2, 7, 8, 9, 127, 128, 129, 1000, 1001, 5000];
+        let ls: &[usize] = &[1, 2, 7, 8, 9, 57, 60, 64, 127, 128, 129, 185, 1000, 1001, 5000];
         let reps = if tier == Tier::Quick { 4 } else { 24 };
         for rep in 0..reps {
             for (i, l) in ls.iter().enumerate() {
